@@ -41,7 +41,8 @@ REQUIRED = ["cases", "ctl_cases", "sw_cases", "hostile_units", "closed_by_input"
             "survived_input", "sibling_messages_checked", "loops_alive_checked",
             "frames_walked", "budget_armed", "hostile_during_handshake",
             "hostile_and_valid_traffic_in_one_segment", "declared_length_below_8_judged",
-            "hostile_completed_while_siblings_are_ready"]
+            "hostile_completed_while_siblings_are_ready",
+            "frames_shorter_than_their_type"]
 TIMEOUT = {"quick": 1200, "thorough": 9000}
 
 _st = {}
@@ -473,6 +474,14 @@ def sw_case (rig, case, rep, fire):
 
 # --------------------------------------------------------------------------
 
+# Size of the fixed part of each OpenFlow 1.0 message type (openflow.h):
+# a frame that declares less cannot hold a message of its type, so whatever
+# is delivered for it was read from beyond its end.
+MIN_LEN = {0: 8, 1: 12, 2: 8, 3: 8, 4: 12, 5: 8, 6: 32, 7: 8, 8: 12, 9: 12,
+           10: 18, 11: 88, 12: 64, 13: 16, 14: 72, 15: 32, 16: 12, 17: 12,
+           18: 8, 19: 8, 20: 12, 21: 16}
+
+
 def judge (rep, fire, side, fed, delivered, closed, pristine, marker_type,
            answered=()):
   frames, end = walk(fed)
@@ -486,6 +495,8 @@ def judge (rep, fire, side, fed, delivered, closed, pristine, marker_type,
              "version %d type %d" % (v, t))
         return
   rep.count("frames_walked", len(frames))
+  rep.count("frames_shorter_than_their_type", sum(
+    1 for f in frames if fed[f[0]] == 1 and f[3] < MIN_LEN.get(f[1], 8)))
   if closed: rep.count("closed_by_input")
   else: rep.count("survived_input")
   # every delivered message is one frame of the walk, in order
@@ -497,6 +508,12 @@ def judge (rep, fire, side, fed, delivered, closed, pristine, marker_type,
       fire("delivered a message that is not a frame of the stream (%s)" % side,
            "delivered (type %r xid %r) after frame %d; frames by declared "
            "length: %r" % (t, x, i, [(f[1], hex(f[2]), f[3]) for f in frames]))
+      return
+    if fed[frames[j][0]] == 1 and frames[j][3] < MIN_LEN.get(t, 8):
+      fire("delivered a message from a frame shorter than the fixed part of "
+           "its type (%s)" % side,
+           "type %d declared length %d, fixed part %d: the rest was read from "
+           "the bytes that follow" % (t, frames[j][3], MIN_LEN[t]))
       return
     i = j + 1
   # a header that declares a length below 8 cannot be skipped (nobody knows
